@@ -24,7 +24,7 @@ NOT_PROVED = ["libm cos/sin/radians are the real functions up to rounding (C18.a
 ASSUMPTIONS = ["np.cos/np.sin/np.radians are the real functions up to rounding"]
 
 
-PROP_MODULES = ['C18', 'C18Ragged']
+PROP_MODULES = ['C18', 'C18Ragged', 'C18Gen']
 
 def nontriv(recs):
     return any(gen.nontrivial_record(r) for r in recs)
@@ -242,6 +242,12 @@ def time_match(ctx):
                                 sigs.append([rng.choice([0, 1]) for _ in range(n)])
                         tm_case(ctx, sigs, master, steps, 'shifted', want)
         ctx.flush()
+    # LONG records (the lag search and the rebuilt slave have no length limit)
+    for n, steps, L in ([(5003, 3, 2), (7000, 2, -1)] if ctx.tier == 'quick' else [(5003, 3, 2), (7000, 2, -1), (5001, 5, -4), (12000, 3, 1), (20000, 2, 1)]):
+        base = [rng.randint(-9, 9) for _ in range(n)]
+        tm_case(ctx, [base, shifted(rng, base, L)], 0, steps, 'long', {1: L})
+        tm_case(ctx, [shifted(rng, base, L), base, shifted(rng, base, -L)], 1, steps, 'long', {0: L, 2: -L})
+    ctx.flush()
     for _ in range(40 if ctx.tier == 'quick' else 400):
         nsig = rng.choice([1, 2, 3, 4])
         sigs = [[rng.randint(-4, 4) for _ in range(rng.choice([0, 1, 2, 3, 5, 6, 9]))] for _ in range(nsig)]
